@@ -99,3 +99,49 @@ package swarmutil
 //@   ensures inv(q)
 //@   ensures [rendezvous] ret1 == nil ==> sent()
 //@   ensures [noanswer] ret1 != nil ==> ret0 == 0
+
+// ---- bounded queue (memswarm / vswarm receive side) ----------------------------------------------
+// Buffers circulate between freelist and queue; what is queued is a private copy of the sender's
+// payload; a dequeued message is handed to exactly one callback before its buffer is recycled.
+
+//@ type Queue
+//@   invariant queue != nil && freelist != nil && closed != nil && !closed(queue) && !closed(freelist)
+//@   invariant closed != queue && closed != freelist && queue != freelist
+//@   chan closed: false
+
+//@ func zeroMessage
+//@   requires m != nil
+//@   modifies all(m)
+//@   ensures len(m.Payload) == 0 && arr(m.Payload) == old(arr(m.Payload)) && off(m.Payload) == old(off(m.Payload)) && cap(m.Payload) == old(cap(m.Payload))
+//@
+//@ func copyMessage
+//@   noframe
+//@   requires dst != nil && src != nil && dst != src
+//@   ensures [content] len(dst.Payload) == old(len(src.Payload)) && (arr(dst.Payload) != old(arr(src.Payload)) ==> forall j :: 0 <= j && j < len(dst.Payload) ==> dst.Payload[j] == old(src.Payload[j]))
+//@   ensures [sender] src.Payload == old(src.Payload)
+//@
+//@ func (*Queue).Deliver
+//@   noframe
+//@   allowpanic
+//@   requires q != nil && inv(q)
+//@   ensures [oversize] len(m.Payload) > old(q.mtu) ==> !ret
+//@   ensures [closed] ret ==> sent()
+//@
+//@ func (*Queue).DeliverVec
+//@   noframe
+//@   allowpanic
+//@   requires q != nil && inv(q)
+//@   ensures [closed] ret ==> sent()
+//@
+//@ func (*Queue).Receive
+//@   noframe
+//@   requires q != nil && inv(q)
+//@   wakes closed(q.closed)
+//@   wakes done(ctx)
+//@   ghostvar called = false
+//@   ensures [handoff] ret == nil ==> ghost(called)
+//@   ensures [nolost] recvfrom(old(q.queue)) ==> ghost(called)
+//@   after call fn:
+//@     set called = true
+//@   fnspec fn:
+//@     preserves q.freelist, q.queue, q.closed, closed(q.freelist)
